@@ -604,6 +604,20 @@ def coll(t, depth=0):
                         keep.append((ft, e))
                 out.append(_group(s, keep))
             return out
+        if n == "Iterator::flatten" and len(a) == 1:
+            # a collection of literal Options flattened: the values of the Some elements, in order
+            out = []
+            for s, alts in coll_src(a[0], depth + 1):
+                keep = []
+                for ts, e in alts:
+                    if isinstance(e, tuple) and e[:2] == ("ctor", "Option::None"):
+                        continue
+                    if isinstance(e, tuple) and e[:2] == ("ctor", "Option::Some"):
+                        keep.append((ts, canon(dict(e[2])["0"])))
+                        continue
+                    raise NotAComprehension("flatten of an element that is no literal Option")
+                out.append(_group(s, keep))
+            return out
         if n == "Iterator::filter_map" and len(a) == 2:
             out = []
             for s, alts in coll_src(a[0], depth + 1):
@@ -664,7 +678,7 @@ def canon(t):
         return ("closure", t[1], canon(t[2])) if len(t) == 3 else t
     if t[0] == "coll":
         return t
-    if t[0] in ("upd", "phi") or (t[0] == "call" and len(t) == 3 and t[1] in ("Iterator::map", "Iterator::filter", "Iterator::filter_map", "Iterator::chain", "Iterator::flat_map")):
+    if t[0] in ("upd", "phi") or (t[0] == "call" and len(t) == 3 and t[1] in ("Iterator::map", "Iterator::filter", "Iterator::filter_map", "Iterator::chain", "Iterator::flat_map", "Iterator::flatten")):
         try:
             return ("coll", tuple(coll(t)))
         except NotAComprehension:
